@@ -161,6 +161,38 @@ def run(rep: Report, tier: str) -> None:  # noqa: C901
     rep.floor("R04.11 alias forms", n11, 2)
     # ---- R04.12 every Time_Period value of a result is rendered in the requested representation, also next to a NULL of the other side of an outer join ----
     representation_row_filter(P, rep, "R04.12")
+    # ---- R04.13 full_join takes operands with the SAME identifiers only ----
+    rep.rule("R04.13", "FullJoin.identifiers_validation evaluated on operand pairs: equal identifier sets pass, an operand whose identifiers are a proper subset / superset / overlap of "
+                       "the reference's is rejected (1-1-13-13 / 1-1-13-12) - otherwise datapoints present only in the smaller operand come back with NULL in a non-nullable identifier")
+    from sa import structmodel as _sm13
+    from sa.e6 import ClassVal as _CV13, Interp as _I13, Raised as _R13, Unmodelled as _U13
+    M13 = _sm13.Model(P)
+    ffj = P.func("vtlengine.Operators.Join.FullJoin.identifiers_validation")
+    n13 = 0
+    for lab13, ids_ref, ids_other, must_pass in (("equal", ["Id_1", "Id_2"], ["Id_1", "Id_2"], True), ("proper-subset", ["Id_1", "Id_2"], ["Id_1"], False), ("overlap", ["Id_1", "Id_2"], ["Id_1", "Id_3"], False),
+                                                 ("single-equal", ["Id_1"], ["Id_1"], True), ("disjoint-same-count", ["Id_1"], ["Id_9"], False)):
+        ref = M13.ds("DS_1", ids_ref, ["Me_1"])
+        oth = M13.ds("DS_2", ids_other, ["Me_2"])
+        for order in ((ref, oth), (oth, ref)):
+            it13 = _I13(P, externals={"isinstance": _sm13._isinstance}, max_steps=8000)
+            it13.class_attrs[("vtlengine.Operators.Join.Join", "reference_dataset")] = ref
+            it13.class_attrs[("vtlengine.Operators.Join.FullJoin", "reference_dataset")] = ref
+            try:
+                it13.call(ffj, {"operands": list(order), "using": None}, bound_cls=_CV13("vtlengine.Operators.Join.FullJoin"))
+                got13 = "accepted"
+            except _R13 as r:
+                got13 = f"rejected {getattr(r.exc, 'code', None)}"
+            except _U13 as e:
+                raise AnalysisError(f"R04.13: FullJoin.identifiers_validation outside the evaluator's language: {e}")
+            n13 += 1
+            rep.instance("R04.13", f"full-join-ids/{lab13}/{'ref-first' if order[0] is ref else 'ref-second'}", nontrivial=True, sample={"reference": ids_ref, "other": ids_other, "outcome": got13})
+            if (got13 == "accepted") != must_pass:
+                rep.add(Finding("R04.13", f"R04.13/full-join-ids/{lab13}", ffj.module.rel, ffj.node.lineno, ffj.qualname,
+                                f"full_join of a dataset with identifiers {ids_ref} (the reference) and one with {ids_other} is {got13}: "
+                                + ("operands with the same identifiers must be accepted" if must_pass else "full_join needs the same identifiers in every operand - for datapoints that exist only "
+                                   "in the operand lacking an identifier, the result has NULL in that non-nullable identifier")))
+                break
+    rep.floor("R04.13 identifier-set cases", n13, 5)
     rep.assumptions = ["DuckDB join semantics for the emitted ON clause", "SQLBuilder.join writes `<keyword> JOIN` from its join_type argument (read from the source)"]
 
 
